@@ -57,8 +57,9 @@ TRUSTED_BASE = [
     "branch first (exact for one limited type, which is all the edited-table stream generates; the shipped table limits none)",
 ]
 ASSUMPTIONS = [
-    "element names are unique within their scope (Topology.nodes / network_services are dictionaries by name: a second service of the same name is "
-    "not seen by validate at all); the derived names of service ports and interface names are NOT assumed unique",
+    "node names and the names of the topology's own (free-standing) services are unique - the API refuses a second one at creation (rename() does "
+    "not check: a node renamed to the name of another node hides it from Topology.nodes, outside this property); services of different nodes may "
+    "share a name and the derived names of service ports and interface names are NOT assumed unique",
     "owner nodes carry a site string (the Node constructor requires one); it may be empty",
     "histories call the API with fresh handles (a NetworkService handle caches its interface list)",
 ]
